@@ -1,1 +1,292 @@
-fn main() {}
+//! C15 threaded workload: every evaluator is drained on its own thread while others run,
+//! evaluators/iterators/showdowns are moved and shared between threads, and each sequence
+//! is compared with the sequence the same evaluator gives alone. This is the only binary
+//! that needs espada's types to be Send + Sync; it is also what runs under Miri and TSan.
+//!
+//!   verif_threads run  <seed> <quick|thorough>     native
+//!   verif_threads small <seed>                     reduced workload (Miri, TSan)
+
+use espada::evaluator::{FlopExhaustiveEvaluator, Showdown};
+use espada::hand_range::HandRange;
+use std::sync::atomic::{AtomicU64, Ordering};
+use std::sync::{mpsc, Arc, Barrier};
+use verif_harness::conv::{cid, pid_of, to_hand_range, Combos};
+use verif_harness::json::Json;
+use verif_harness::refmodel::scope::{from_linear, POSITIONS};
+use verif_harness::util::{mix2, Rng};
+
+/// Compact, comparable trace of one showdown (formatting is slow under Miri).
+#[derive(Clone, Debug, PartialEq, Eq, Hash)]
+struct Key {
+    board: [u8; 5],
+    players: Vec<(u8, u8, u16, bool)>,
+    prob_bits: u32,
+    winner_len: u8,
+}
+
+fn key(sd: &Showdown) -> Key {
+    let b = sd.board();
+    Key {
+        board: [cid(&b[0]), cid(&b[1]), cid(&b[2]), cid(&b[3]), cid(&b[4])],
+        players: sd
+            .players()
+            .iter()
+            .map(|p| {
+                let h = pid_of(&p.hole_cards());
+                (h.0, h.1, p.hand().power_index(), p.is_winner())
+            })
+            .collect(),
+        prob_bits: sd.probability().to_bits(),
+        winner_len: sd.winner_len(),
+    }
+}
+
+#[derive(Clone)]
+struct Job {
+    flop: [u8; 3],
+    ranges: Arc<Vec<HandRange>>,
+    scope: ((u8, u8), (u8, u8)),
+}
+
+impl Job {
+    fn evaluator(&self) -> FlopExhaustiveEvaluator {
+        let board = Arc::new(verif_harness::drive::board_of(&self.flop));
+        let mut e = FlopExhaustiveEvaluator::new(&board, &self.ranges);
+        e.scope(self.scope.0 .0, self.scope.0 .1, self.scope.1 .0, self.scope.1 .1);
+        e
+    }
+
+    fn solo(&self) -> Vec<Key> {
+        self.evaluator().into_iter().map(|sd| key(&sd)).collect()
+    }
+}
+
+fn small_range(rng: &mut Rng, cards: &[u8], size: usize) -> Combos {
+    verif_harness::workload::clustered_range(rng, cards, size, verif_harness::workload::WeightMode::Family)
+}
+
+fn make_jobs(rng: &mut Rng, n: usize, positions: usize, max_combos: usize) -> Vec<Job> {
+    let mut jobs = Vec::new();
+    // pairs of jobs share one Arc'd range list, as the example's workers do
+    let mut shared: Option<(Arc<Vec<HandRange>>, [u8; 3])> = None;
+    for i in 0..n {
+        let (ranges, flop) = match (&shared, i % 2) {
+            (Some(s), 1) => s.clone(),
+            _ => {
+                let flop = verif_harness::workload::textured_flop(rng, i);
+                let cards: Vec<u8> = rng.sample(52, 12).into_iter().map(|c| c as u8).collect();
+                let players = 1 + rng.usize_below(3);
+                let ranges: Vec<HandRange> = (0..players)
+                    .map(|_| {
+                        let size = 1 + rng.usize_below(max_combos);
+                        to_hand_range(&small_range(rng, &cards, size))
+                    })
+                    .collect();
+                let s = (Arc::new(ranges), flop);
+                shared = Some(s.clone());
+                s
+            }
+        };
+        let a = rng.usize_below(POSITIONS - positions);
+        let b = a + 1 + rng.usize_below(positions);
+        jobs.push(Job { flop, ranges, scope: (from_linear(a), from_linear(b)) });
+    }
+    jobs
+}
+
+struct Outcome {
+    threads: u64,
+    sequences_compared: u64,
+    showdowns: u64,
+    mismatches: Vec<String>,
+    interleavings: std::collections::HashSet<u64>,
+    handoffs: u64,
+    shared_reads: u64,
+}
+
+static TICKET: AtomicU64 = AtomicU64::new(0);
+
+/// One round: every job drained on its own thread, all threads released together.
+fn round(jobs: &[Job], solos: &[Vec<Key>], seed: u64, inject: bool, out: &mut Outcome) {
+    let n = jobs.len();
+    let barrier = Arc::new(Barrier::new(n));
+    let (tx, rx) = mpsc::channel::<(usize, Showdown)>();
+    let mut handles = Vec::new();
+    for (i, job) in jobs.iter().enumerate() {
+        let job = job.clone();
+        let barrier = barrier.clone();
+        let tx = tx.clone();
+        // the evaluator is built here and moved into the thread (Send)
+        let evaluator = job.evaluator();
+        handles.push(std::thread::spawn(move || {
+            let mut rng = Rng::new(mix2(seed, i as u64));
+            let mut seq: Vec<Key> = Vec::new();
+            let mut tickets: Vec<u64> = Vec::new();
+            barrier.wait();
+            for sd in evaluator {
+                tickets.push(TICKET.fetch_add(1, Ordering::Relaxed));
+                seq.push(key(&sd));
+                // showdowns cross to the collecting thread and are read there
+                if seq.len() % 7 == 1 {
+                    let _ = tx.send((i, sd));
+                }
+                if inject {
+                    match rng.below(16) {
+                        0 => std::thread::yield_now(),
+                        1 => std::thread::sleep(std::time::Duration::from_micros(rng.below(50))),
+                        _ => {}
+                    }
+                }
+            }
+            (seq, tickets)
+        }));
+    }
+    drop(tx);
+    // read the showdowns that were produced on other threads
+    let mut received: Vec<(usize, Key)> = Vec::new();
+    for (i, sd) in rx.iter() {
+        received.push((i, key(&sd)));
+    }
+    let mut order: Vec<(u64, usize)> = Vec::new();
+    for (i, h) in handles.into_iter().enumerate() {
+        match h.join() {
+            Ok((seq, tickets)) => {
+                out.threads += 1;
+                out.sequences_compared += 1;
+                out.showdowns += seq.len() as u64;
+                if seq != solos[i] {
+                    let at = seq.iter().zip(solos[i].iter()).position(|(a, b)| a != b).unwrap_or(seq.len().min(solos[i].len()));
+                    out.mismatches.push(format!("thread {}: {} showdowns on its own thread, {} alone; first difference at showdown {}", i, seq.len(), solos[i].len(), at));
+                }
+                for t in tickets {
+                    order.push((t, i));
+                }
+            }
+            Err(_) => out.mismatches.push(format!("thread {} panicked", i)),
+        }
+    }
+    for (i, k) in received {
+        out.shared_reads += 1;
+        if !solos[i].contains(&k) {
+            out.mismatches.push(format!("a showdown of thread {} read on another thread is not in its solo sequence", i));
+        }
+    }
+    order.sort_unstable();
+    let mut h = 0u64;
+    for (_, i) in order {
+        h = mix2(h, i as u64);
+    }
+    out.interleavings.insert(h);
+}
+
+/// An iterator advanced on one thread, handed to another thread mid-way, finished there.
+fn handoff(job: &Job, solo: &[Key], split: usize, out: &mut Outcome) {
+    let mut it = job.evaluator().into_iter();
+    let mut seq: Vec<Key> = Vec::new();
+    for _ in 0..split {
+        match it.next() {
+            Some(sd) => seq.push(key(&sd)),
+            None => break,
+        }
+    }
+    let rest = std::thread::spawn(move || {
+        let mut tail = Vec::new();
+        for sd in it {
+            tail.push(key(&sd));
+        }
+        tail
+    })
+    .join();
+    out.handoffs += 1;
+    match rest {
+        Ok(tail) => {
+            seq.extend(tail);
+            if seq != solo {
+                out.mismatches.push(format!("an iterator moved to another thread after {} steps continues differently", split));
+            }
+        }
+        Err(_) => out.mismatches.push("thread finishing a moved iterator panicked".into()),
+    }
+}
+
+/// Shared (Sync) use: several threads read the same range, the same showdowns.
+fn shared_use(job: &Job, solo: &[Key], parse_too: bool, out: &mut Outcome) {
+    let showdowns: Arc<Vec<Showdown>> = Arc::new(job.evaluator().into_iter().collect());
+    let ranges = job.ranges.clone();
+    let mut handles = Vec::new();
+    for t in 0..3 {
+        let showdowns = showdowns.clone();
+        let ranges = ranges.clone();
+        handles.push(std::thread::spawn(move || {
+            let keys: Vec<Key> = showdowns.iter().map(key).collect();
+            let mut texts = Vec::new();
+            for r in ranges.iter() {
+                let combos = r.card_pairs().len();
+                let rp = r.rank_pairs().len();
+                let orphans = r.orphan_card_pairs().len();
+                let text = if parse_too { r.to_string() } else { String::new() };
+                let back = if parse_too { text.parse::<HandRange>().ok().map(|b| b == *r) } else { Some(true) };
+                texts.push((combos, rp, orphans, text, back));
+            }
+            let _ = t;
+            (keys, texts)
+        }));
+    }
+    let mut results = Vec::new();
+    for h in handles {
+        match h.join() {
+            Ok(r) => results.push(r),
+            Err(_) => out.mismatches.push("a thread reading shared ranges/showdowns panicked".into()),
+        }
+    }
+    out.shared_reads += results.len() as u64;
+    for (keys, texts) in &results {
+        if keys != solo {
+            out.mismatches.push("showdowns shared through an Arc read differently on another thread".into());
+        }
+        if *texts != results[0].1 {
+            out.mismatches.push("a shared range answers differently on different threads".into());
+        }
+        if texts.iter().any(|t| t.4 != Some(true)) {
+            out.mismatches.push("a shared range formatted and parsed on a thread does not come back equal".into());
+        }
+    }
+}
+
+fn main() {
+    let args: Vec<String> = std::env::args().collect();
+    let mode = args.get(1).map(|s| s.as_str()).unwrap_or("small");
+    let seed: u64 = args.get(2).and_then(|s| s.parse().ok()).unwrap_or(0);
+    let thorough = args.get(3).map(|s| s == "thorough").unwrap_or(false);
+    let small = mode == "small";
+    let mut rng = Rng::new(mix2(seed, 0xC15));
+    let mut out = Outcome { threads: 0, sequences_compared: 0, showdowns: 0, mismatches: Vec::new(), interleavings: Default::default(), handoffs: 0, shared_reads: 0 };
+    let rounds = if small { 2 } else if thorough { 1500 } else { 300 };
+    for r in 0..rounds {
+        let n_threads = if small { 3 } else { 2 + rng.usize_below(if thorough { 31 } else { 15 }) };
+        let (positions, combos) = if small { (10, 3) } else { (120, 8) };
+        let jobs = make_jobs(&mut rng, n_threads, positions, combos);
+        // solo sequences first, from evaluators over the very same range objects
+        let solos: Vec<Vec<Key>> = jobs.iter().map(|j| j.solo()).collect();
+        round(&jobs, &solos, mix2(seed, r as u64), r % 2 == 1, &mut out);
+        if r % 4 == 0 || small {
+            let split = rng.usize_below(solos[0].len() + 1);
+            handoff(&jobs[0], &solos[0], split, &mut out);
+            shared_use(&jobs[0], &solos[0], !small, &mut out);
+        }
+    }
+    let doc = Json::obj()
+        .set("mode", Json::str(mode))
+        .set("threads", Json::Int(out.threads as i128))
+        .set("sequences_compared", Json::Int(out.sequences_compared as i128))
+        .set("showdowns", Json::Int(out.showdowns as i128))
+        .set("distinct_interleavings", Json::Int(out.interleavings.len() as i128))
+        .set("iterator_handoffs", Json::Int(out.handoffs as i128))
+        .set("cross_thread_reads", Json::Int(out.shared_reads as i128))
+        .set("mismatches", Json::strs(out.mismatches.iter().take(10).cloned()))
+        .set("mismatch_count", Json::Int(out.mismatches.len() as i128));
+    println!("THREADS-REPORT {}", doc.to_string_compact());
+    if !out.mismatches.is_empty() {
+        std::process::exit(1);
+    }
+}
